@@ -284,9 +284,38 @@ func TestForkID(t *testing.T) {
 		Name: subName, Quick: 8000, Thorough: 80000,
 		Gen:      genCase,
 		Check:    check,
-		Enum:     func(tier string, yield func(Case)) { vectorCases(yield) },
-		EnumDesc: "the 500 node-generated BIP143 vector transactions (script recorded as previous script of every input) x every input index incl. 3 out-of-range x all 128 hash types with bit 0x40",
+		Enum:     func(tier string, yield func(Case)) { vectorCases(yield); countSweep(tier, yield) },
+		EnumDesc: "the 500 node-generated BIP143 vector transactions (script recorded as previous script of every input) x every input index incl. 3 out-of-range x all 128 hash types with bit 0x40; every input count 1..140 (x output count 0 / 1 / equal) with all-final and with mixed sequence numbers",
 	})
 	pbt.SetExtra(subName, "sum_digest_pairs_compared", digests.Load())
 	pbt.SetExtra(subName, "sum_error_pairs_checked", errCalls.Load())
+}
+
+// countSweep yields a transaction for every input count 1..140 (quick: every count up to 70, then
+// every third) - tables, fast paths and pre-sized buffers have their edge at some count, usually a
+// power of two - with 0, 1 or as many outputs, once with all sequence numbers final and once mixed.
+func countSweep(tier string, yield func(Case)) {
+	for n := 1; n <= 140; n++ {
+		if tier != "thorough" && n > 70 && n%3 != 0 {
+			continue
+		}
+		for _, nout := range []int{0, 1, n} {
+			for _, final := range []bool{true, false} {
+				m := ref.Tx{Version: 1, LockTime: uint32(n)}
+				for i := 0; i < n; i++ {
+					id := make(pbt.Hex, 32)
+					id[0], id[1], id[31] = byte(i), byte(i>>8), byte(n)
+					seq := uint32(0xffffffff)
+					if !final && i%2 == 1 {
+						seq = uint32(i)
+					}
+					m.In = append(m.In, ref.In{TxID: id, Vout: uint32(i), Seq: seq, PrevSats: uint64(1000 + i), PrevScript: pbt.Hex{0x76, 0xa9, byte(i), 0x88, 0xac}, Unlock: pbt.Hex{}})
+				}
+				for k := 0; k < nout; k++ {
+					m.Out = append(m.Out, ref.Out{Sats: uint64(k + 1), Script: pbt.Hex{0x51, byte(k)}})
+				}
+				yield(Case{Src: "count-sweep", Tx: m})
+			}
+		}
+	}
 }
